@@ -138,7 +138,7 @@ class CGen:
                 self.send(k, [self.bcast(k, ch)])
                 self.ops[-1]["probe"] = "publish"
         if self.live:
-            k = self.r.choice(sorted(self.live))
+            k = max(self.live) if self.r.random() < 0.7 else self.r.choice(sorted(self.live))
             u = self.live[k]
             self.hangup(k)
             self.ops[-1]["probe"] = "departure"
@@ -396,6 +396,37 @@ def namesake_family(r, thorough):
     return cases
 
 
+def waiting_join_hangup_family(r, thorough):
+    """x's JOIN waits for a channel lock (held by y's JOIN, suspended in its announcement) when x's connection goes away;
+    x is in another channel, so its clean-up suspends too (MEMBER_LEFT parked); then y's JOIN is released, then the
+    clean-up.  x's waiting JOIN must have been cancelled with its connection: a namesake that joins nothing receives
+    nothing, MEMBERS does not list it"""
+    cases = []
+    for i in range(8 if thorough else 3):
+        g = CGen(r, cfg_for(r))
+        o, x, y = g.open("alice"), g.open("bob"), g.open("carol")
+        c, d = r.sample(CHANS, 2)
+        g.send(o, [g.join(o, c)])
+        g.send(x, [g.join(x, d)])
+        if i % 2 == 0:
+            g.send(o, [g.join(o, d)])
+        n1, n2 = g.park(), g.park()
+        g.send(y, [g.join(y, c)], [{"park": n1}])
+        g.send(x, [g.join(x, c)])                 # waits for c's lock
+        g.hangup(x, [{"park": n2}])               # the clean-up parks in MEMBER_LEFT d
+        order = [n1, n2] if i % 3 != 2 else [n2, n1]
+        for n in order:
+            g.release(n, "ok")
+        g.settle()
+        g.open("bob")                             # the namesake joins nothing
+        g.send(o, [g.bcast(o, c)])
+        g.send(y, [g.bcast(y, c)])
+        g.audit()
+        g.probes()
+        cases.append(g.case("waiting_join_hangup"))
+    return cases
+
+
 def owner_leave_family(r, thorough):
     """the owner's LEAVE suspended in its first or second announcement while others join, leave, publish; optionally the
     owner's connection goes away meanwhile (the request is cancelled where it stands)"""
@@ -407,7 +438,7 @@ def owner_leave_family(r, thorough):
         g.send(a, [g.join(a, ch)])
         g.send(bb, [g.join(bb, ch)])
         n1, n2 = g.park(), g.park()
-        second = r.random() < 0.5
+        second = i % 2 == 0
         g.send(a, [g.leave(a, ch)], ["ok", {"park": n2}] if second else [{"park": n1}])
         act = r.choice(["join", "leave", "bcast", "kick"])
         if act == "join":
@@ -418,8 +449,8 @@ def owner_leave_family(r, thorough):
             g.send(bb, [g.bcast(bb, ch)])
         else:
             g.send(bb, [g.leave(bb, ch, ob="alice")])
-        if r.random() < 0.35:
-            g.hangup(a)
+        if i % 4 in (0, 1):
+            g.hangup(a)              # the owner's request is dropped where it stands
         g.release(n2 if second else n1, r.choice(["ok", "err"]))
         g.settle()
         g.audit()
@@ -519,7 +550,7 @@ def random_family(r, thorough):
 
 
 def histories(r, thorough):
-    return (namesake_family(r, thorough) + orphan_family(r, thorough) + parked_join_family(r, thorough) + cleanup_family(r, thorough)
+    return (namesake_family(r, thorough) + waiting_join_hangup_family(r, thorough) + orphan_family(r, thorough) + parked_join_family(r, thorough) + cleanup_family(r, thorough)
             + owner_leave_family(r, thorough) + overlap_join_family(r, thorough) + random_family(r, thorough))
 
 
@@ -651,7 +682,7 @@ def monitor(case, obs):
             u = user.get(k)
             if u is not None and not live_sessions(u):
                 later = ops[t:t + 2]
-                for ch in chans_listed.get(k, []):
+                for ch in sorted(set(chans_listed.get(k, [])) | {c for c in CHANS if u in mset(c)}):
                     for k2 in sorted(user):
                         if k2 in gone or user[k2] == u or user[k2] not in mset(ch):
                             continue
